@@ -57,7 +57,7 @@ class C01(Machine):
 
     def plan(self, tier):
         if tier == 'quick':
-            return {'runs': 8000, 'budget_s': 400, 'det_runs': 3,
+            return {'runs': 4000, 'budget_s': 600, 'det_runs': 3,
                     'run_timeout': 120, 'shrink_s': 120}
         return {'runs': 100000, 'budget_s': 3000, 'det_runs': 5,
                 'run_timeout': 200, 'shrink_s': 200}
